@@ -620,6 +620,14 @@ def rand_udp_program(rng):
         elif r < 0.9:
             s = rng.choice(["s1", "s2"])
             ops.append({"t": t, "op": "df", "s": s, "v": rng.random() < 0.5})
+        elif r < 0.95:
+            s = rng.choice(["s1", "s2", "s3"])
+            if s in bound and isopen[s]:
+                ops.append({"t": t, "op": "waitw", "s": s})
+        elif r < 0.97:
+            s = rng.choice(["s1", "s2", "r1"])
+            if isopen[s]:
+                ops.append({"t": t, "op": "cancel", "s": s})
     return {"topo": topo, "ops": ops}
 
 
@@ -1137,3 +1145,184 @@ def c20(ctx):
     ctx.assumptions = ["MTU tables are symmetric in the address pair"]
     udp_pipeline(ctx, "C20")
     tcp_pipeline(ctx, "C20", n_quick=250)
+
+
+# ---------------------------------------------------------------------------
+# C04 / C12: fault enumeration at every step-hook boundary
+
+def fault_base_scenarios():
+    def topo(lossy):
+        big = 1475
+        return {"tick_ns": 1000, "dmtu": 1475,
+                "addrs": {"A1": {"nat": "", "out_lat": 1000, "in_lat": 500, "out_cap": 0, "in_cap": 0},
+                          "A2": {"nat": "X1", "out_lat": 300, "in_lat": 200},
+                          "B1": {"nat": "", "out_lat": 700, "in_lat": 300, "in_cap": (3100 if lossy else 0)}},
+                "mtu": [], "net": {"lat": 10000, "cap": (3000 if lossy else 0), "bw": (400000 if lossy else 0)},
+                "nodes": {"N1": ["A1"], "N3": ["A2"], "N2": ["B1"]}}
+    def conn(i, form, c2a, a2c, close="client", accept_at=1, connect_at=5, target=8000, caddr="A1", style="read"):
+        return {"id": i, "client": "c%d" % i, "cnode": "N1" if caddr == "A1" else "N3", "caddr": caddr, "cport": 4000 + i,
+                "acc": "l1", "into": "a%d" % i, "form": form, "accept_at": accept_at, "connect_at": connect_at,
+                "target": ["B1", target],
+                "c2a": {"bytes": c2a, "sizes": [2500, 700], "nbufs": 2}, "a2c": {"bytes": a2c, "sizes": [900]},
+                "cread": {"style": style, "caps": [1000]}, "aread": {"style": "wait" if style == "read" else "read", "caps": [1500, 200]},
+                "close": close}
+    acc = {"l1": {"node": "N2", "addr": "B1", "port": 8000}}
+    S = []
+    S.append(("S2-lossfree", {"topo": topo(False), "acceptors": acc, "ctl": [], "conns": [conn(1, 1, 10000, 3000)]}, ["c1", "a1", "l1"]))
+    S.append(("S3-lossy", {"topo": topo(True), "acceptors": acc, "ctl": [], "conns": [conn(1, 2, 12000, 0)]}, ["c1", "a1"]))
+    S.append(("S4-accept-late+refused", {"topo": topo(False), "acceptors": acc, "ctl": [],
+              "conns": [conn(1, 3, 2000, 500, accept_at=40000, style="wait"), conn(2, 2, 100, 0, target=8099, caddr="A2")]}, ["c1", "l1", "c2"]))
+    S.append(("S7-two-connections", {"topo": topo(False), "acceptors": acc, "ctl": [],
+              "conns": [conn(1, 1, 6000, 2000), conn(2, 2, 5000, 1000, caddr="A2", connect_at=9, close="acceptor", style="wait")]}, ["c1", "a1", "l1"]))
+    return S
+
+
+def udp_fault_base(rng):
+    topo = udp_topo(rng, nat="one", caps=False, small=True)
+    ops = [{"t": 0, "op": "bind", "s": "s1", "a": "A1", "p": 5001}, {"t": 0, "op": "bind", "s": "s2", "a": "A2", "p": 5002},
+           {"t": 0, "op": "bind", "s": "r1", "a": "B1", "p": 7000}, {"t": 0, "op": "bind", "s": "r2", "a": "B1", "p": 7001},
+           {"t": 0, "op": "recv", "s": "r1", "style": "recv_from", "bufs": [50, 50], "auto": True},
+           {"t": 0, "op": "recv", "s": "r2", "style": "wait", "bufs": [2000], "auto": True},
+           {"t": 0, "op": "recv", "s": "s1", "style": "recv", "bufs": [10], "auto": True},
+           {"t": 0, "op": "sndbuf", "s": "s2", "n": 3000}]
+    t = 0
+    for k in range(14):
+        t += [0, 3, 40, 200][k % 4]
+        ops.append({"t": t, "op": "send", "s": ["s1", "s2"][k % 2], "dst": ["B1", 7000 + (k % 3 == 2)], "bufs": [[30], [700, 9], [120]][k % 3]})
+        if k % 5 == 4:
+            ops.append({"t": t, "op": "send", "s": "r1", "dst": ["A1", 5001], "bufs": [64]})
+        if k % 4 == 1:
+            ops.append({"t": t + 1, "op": "waitw", "s": "s2"})
+        if k == 6:
+            ops.append({"t": t + 2, "op": "waitw", "s": "r1"})
+        if k == 9:
+            # a burst that fills more than half of s2's send buffer, then a wait-for-writable that really waits
+            ops.append({"t": t + 3, "op": "send", "s": "s2", "dst": ["B1", 7000], "bufs": [1400]})
+            ops.append({"t": t + 3, "op": "send", "s": "s2", "dst": ["B1", 7001], "bufs": [1400]})
+            ops.append({"t": t + 3, "op": "waitw", "s": "s2"})
+    return {"topo": topo, "ops": ops}
+
+
+def classify_fault_reject(rj, proto):
+    lines = rj["lines"]
+    at = rj["at"]
+    try:
+        ev = json.loads(lines[at]) if at < len(lines) else {"e": "<end>"}
+    except ValueError:
+        ev = {"e": "<end>"}
+    name = ev.get("e")
+    sj = rj.get("state_json") or {}
+    completion = name in ("WriteDone", "ReadDone", "Ready", "ConnectDone", "AcceptDone", "Recv", "RecvAborted", "RecvErr", "ReadSome")
+    if ev.get("inline"):
+        return "C04", "%s.handler-inline@%s" % (proto, name)
+    if completion and (ev.get("stale") or ev.get("ec") == "aborted" or name == "RecvAborted"):
+        return "C04", "%s.handler-invoked-but-not-outstanding(%s,ec=%s)" % (proto, name, ev.get("ec"))
+    if name == "End" and (sj.get("owed")):
+        return "C04", "%s.aborted-handler-never-invoked" % proto
+    if name == "End" and proto == "udp":
+        return "C04", "udp.quiescent-with-operation-owed-or-pending"
+    return "C12", "%s.after-fault@%s" % (proto, name)
+
+
+def fault_enum(ctx, owner):
+    import random
+    q = ctx.tier == "quick"
+    rng = random.Random(ctx.seed)
+    whats = ["close", "cancel", "destroy"]
+    budget = 2500 if q else 40000
+    scen = [("tcp", n, p, objs) for (n, p, objs) in fault_base_scenarios()]
+    scen.append(("udp", "S5-udp", udp_fault_base(rng), ["s1", "s2", "r1", "r2"]))
+    # 1. boundaries of every base run
+    per = budget // len(scen)
+    progs = {"tcp": [], "udp": []}
+    meta = {"tcp": [], "udp": []}
+    for proto, name, prog, objs in scen:
+        f = ctx.path("base_%s.ndjson" % name)
+        with open(f, "w") as fh:
+            fh.write(json.dumps(prog) + "\n")
+        res, total = vlib.replay(ctx, "record-" + proto, f, nproc=1)
+        K = res[0].get("boundaries", 0) if res and res[0].get("ok") else 0
+        if K < 5:
+            raise Machinery("base scenario %s did not run (K=%s): %s" % (name, K, res))
+        combos = [(k, o, w) for k in range(1, K + 1) for o in objs for w in whats] + [(k, "", "throw") for k in range(1, K + 1)]
+        if len(combos) > per:
+            combos = rng.sample(combos, per)
+        ctx.notes.setdefault("boundaries", {})[name] = K
+        for (k, o, w) in combos:
+            pr = dict(prog)
+            pr["fault"] = {"k": k, "obj": o, "what": w}
+            progs[proto].append(pr)
+            meta[proto].append((name, k, o, w))
+    ctx.exhaustive = not q
+    for proto in ("tcp", "udp"):
+        f = ctx.path("fault_%s.ndjson" % proto)
+        with open(f, "w") as fh:
+            for pr in progs[proto]:
+                fh.write(json.dumps(pr) + "\n")
+        res, total, chunks = vlib.replay(ctx, "record-" + proto, f, keep=True, env={"VH_WALL_LIMIT": "1500"})
+        ctx.evaluations += len(res)
+        for r in res:
+            m = meta[proto][r["i"]]
+            if r.get("ok"):
+                ctx.nontrivial.add((m[0], m[2], m[3], m[1] * 8 // max(1, ctx.notes["boundaries"][m[0]])))
+                continue
+            sig = "%s.%s(%s,%s)" % (proto, r["sig"], m[3], m[2])
+            own = "C12"
+            if own == owner:
+                ctx.violation(sig, "%s at boundary %d: %s" % (m[0], m[1], r.get("msg", "")[-700:]), progs[proto][r["i"]],
+                              {"subcmd": "record-" + proto})
+        traces = [c + ".trace" for c in chunks if os.path.exists(c + ".trace")]
+        mod, cfg = ("TraceTcp.tla", "Trace_Tcp.cfg") if proto == "tcp" else ("TraceUdp.tla", "Trace_Udp.cfg")
+        out = vlib.validate_traces(ctx, mod, cfg, traces)
+        for (nruns, nev, rejected), tp in zip(out, traces):
+            ctx.traces += nruns
+            for rj in rejected:
+                own, sig = classify_fault_reject(rj, proto)
+                fault = [l for l in rj["lines"] if '"how"' in l or '"e":"Throw"' in l or '"destroy":true' in l][:1]
+                if own == owner:
+                    ln = rj["lines"]
+                    if len(ln) > 400:
+                        ln = ln[:30] + ["..."] + ln[max(0, rj["at"] - 200):rj["at"] + 3]
+                    ctx.violation(sig, "trace rejected at event %d: %s | fault: %s | spec: %s" %
+                                  (rj["at"], rj["event"][:200], (fault or ["?"])[0][:160], (rj.get("state") or "")[:300]),
+                                  {"trace": ln}, {"kind": "trace", "module": mod})
+                else:
+                    log("[%s] rejected run belongs to %s: %s" % (owner, own, sig))
+    for m in meta["tcp"][:2] + meta["udp"][:1]:
+        ctx.add_sample({"scenario": m[0], "boundary": m[1], "object": m[2], "intervention": m[3]})
+
+
+@check("C12", "fault_enumeration")
+def c12(ctx):
+    ctx.rule = ("for every base scenario (loss-free and lossy TCP transfer, late accept of three forms + refused connect, two "
+                "connections, UDP exchange with three receive styles and a small send buffer) the run is first executed to count "
+                "its step-hook boundaries K (between ANY two handler executions, library-internal ones included); then for every "
+                "k <= K (sampled in the quick tier), every participating object and every intervention in {close, cancel, "
+                "destroy, throw} the run is repeated with the intervention at boundary k and continued to quiescence under "
+                "ASan+UBSan+libstdc++ assertions; the recorded trace must still be a behaviour of Tcp.tla / Udp.tla (the dead "
+                "object is silent, the others conform); timers/resolvers are covered by the SimCore and Resolver corpora which "
+                "place cancel/destroy at every boundary; distinct non-trivial = (scenario, object, intervention, eighth of the run)")
+    ctx.assumptions = ["memory safety itself is decided by the sanitizers, not by TLC (DESIGN.md section 9)",
+                       "objects an outstanding operation merely refers to stay alive, as asio requires"]
+    fault_enum(ctx, "C12")
+
+
+@check("C04", "fault_enumeration")
+def c04(ctx):
+    ctx.rule = ("same enumeration as C12 (every step-hook boundary x object x {close, cancel, destroy}); the trace specs keep, per "
+                "socket / acceptor, the outstanding operation and a count of aborted-but-not-yet-run handlers: a completion is "
+                "accepted only for an outstanding operation (at most once), never from inside the initiating call (inline flag), "
+                "and run() may only return with nothing owed (exactly once); plus the SimCore corpus (timer waits: never inline, "
+                "aborted exactly once) and the Resolver corpus (cancel/destroy: every pending lookup aborted exactly once); "
+                "distinct non-trivial = (scenario, object, intervention, eighth of the run)")
+    ctx.assumptions = ["whether an operation 'had already completed' at the intervention is not observable: an aborted or the natural "
+                       "result is accepted, exactly once"]
+    fault_enum(ctx, "C04")
+    # timers: inline / nested / order signatures of the SimCore corpus
+    f1 = ctx.path("beh_bfs.ndjson")
+    vlib.tlc_gen(ctx, "GenSimCore.tla", "Gen_SimCore_q.cfg", f1)
+    res, total = vlib.replay(ctx, "replay-simcore", f1)
+    for r in res:
+        if not r.get("ok") and not (r["sig"].startswith(("inline", "nested")) or "exec.ec" in r["sig"] or "exec.unexpected" in r["sig"]):
+            r["ok"] = True
+    vlib.judge_replay(ctx, res, f1, total, sample=False)
